@@ -21,13 +21,19 @@ theorem suspend_frame (s : PSim) (h : Nat) (w : Instr) : ProcFrame s (suspend s 
   case waitStable => exact ⟨rfl, rfl, rfl, rfl, rfl, rfl⟩
   all_goals exact .refl s
 
+theorem finishProc_frame (s : PSim) (h : Nat) : ProcFrame s (finishProc s h) := by
+  unfold finishProc
+  split
+  · exact .refl s
+  · exact ⟨rfl, rfl, rfl, rfl, rfl, rfl⟩
+
 theorem runProc_frame (fuel : Nat) (s : PSim) (h : Nat) : ProcFrame s (runProc fuel s h) := by
   induction fuel generalizing s h with
   | zero => exact frame_fail s _
   | succ n ih =>
     unfold runProc
     cases hp : s.ext.procs.getD h [] with
-    | nil => exact .refl s
+    | nil => exact finishProc_frame s h
     | cons ins rest =>
       simp only
       have f0 : ProcFrame s (setProc s h rest) := ⟨rfl, rfl, rfl, rfl, rfl, rfl⟩
@@ -39,11 +45,33 @@ theorem runProc_frame (fuel : Nat) (s : PSim) (h : Nat) : ProcFrame s (runProc f
       | fork c =>
         refine f0.trans (ProcFrame.trans ?_ ((ih _ _).trans (ih _ _)))
         exact ⟨rfl, rfl, rfl, rfl, rfl, rfl⟩
+      | join k =>
+        refine f0.trans ?_
+        simp only
+        split
+        · exact ih _ _
+        · split
+          · exact ih _ _
+          · exact ⟨rfl, rfl, rfl, rfl, rfl, rfl⟩
       | waitFor d => exact f0.trans (suspend_frame _ _ _)
       | waitClk d ph => exact f0.trans (suspend_frame _ _ _)
       | waitClkFree f ph => exact f0.trans (suspend_frame _ _ _)
       | waitChange sigs => exact f0.trans (suspend_frame _ _ _)
       | waitStable => exact f0.trans (suspend_frame _ _ _)
+
+theorem drain_frame (fuel : Nat) (s : PSim) : ProcFrame s (drain fuel s) := by
+  induction fuel generalizing s with
+  | zero => exact frame_fail s _
+  | succ n ih =>
+    unfold drain
+    split
+    · exact .refl s
+    · rename_i r rest _
+      exact ProcFrame.trans (b := { s with ext := { s.ext with ready := rest } }) ⟨rfl, rfl, rfl, rfl, rfl, rfl⟩
+        ((runProc_frame _ _ _).trans (ih _))
+
+theorem resumeTop_frame (s : PSim) (h : Nat) : ProcFrame s (resumeTop s h) :=
+  (runProc_frame _ s h).trans (drain_frame _ _)
 
 theorem checkWatches_frame (s : PSim) : ProcFrame s (checkWatches s) := by
   refine ⟨rfl, rfl, rfl, rfl, ?_, rfl⟩
@@ -62,18 +90,18 @@ theorem foldl_frame {α : Type} (f : PSim → α → PSim) (hf : ∀ s a, ProcFr
 theorem commitProcs_frame (s : PSim) : ProcFrame s (commitProcs s) := by
   unfold commitProcs
   refine ProcFrame.trans (b := { s with ext := { s.ext with awaitingCommit := [] } }) ⟨rfl, rfl, rfl, rfl, rfl, rfl⟩ ?_
-  exact foldl_frame _ (fun s h => runProc_frame _ s h) _ _
+  exact foldl_frame _ (fun s h => resumeTop_frame s h) _ _
 
 theorem startProcs_frame (n : Nat) (s : PSim) : ProcFrame s (startProcs n s) := by
   unfold startProcs
   apply foldl_frame
   intro s k
   exact ProcFrame.trans (b := { s with ext := { s.ext with procs := s.ext.procs ++ [s.ext.scripts.getD k []] } })
-    ⟨rfl, rfl, rfl, rfl, rfl, rfl⟩ (runProc_frame _ _ _)
+    ⟨rfl, rfl, rfl, rfl, rfl, rfl⟩ (resumeTop_frame _ _)
 
 /-- the script semantics satisfies the frame laws, so all C04 theorems hold in the presence of any set of process scripts -/
 theorem scriptSem_lawful (n : Nat) : (scriptSem n).Lawful :=
-  ⟨fun _ s h => runProc_frame _ s h, fun _ s => checkWatches_frame s, fun _ s => commitProcs_frame s,
+  ⟨fun _ s h => resumeTop_frame s h, fun _ s => checkWatches_frame s, fun _ s => commitProcs_frame s,
    fun _ s => startProcs_frame n s⟩
 
 end Gatery.Sched
